@@ -17,6 +17,8 @@ pub(super) struct ConnectionState {
     receivers: HashSet<ChannelCookie>,
     bus_listeners: HashSet<BusListenerCookie>,
     calls: HashMap<u32, (u32, ConnectionId)>,
+    #[cfg(feature = "verif-hooks")]
+    verif_id: usize,
 }
 
 impl ConnectionState {
@@ -32,6 +34,37 @@ impl ConnectionState {
             receivers: HashSet::new(),
             bus_listeners: HashSet::new(),
             calls: HashMap::new(),
+            #[cfg(feature = "verif-hooks")]
+            verif_id: usize::MAX,
+        }
+    }
+
+    #[cfg(feature = "verif-hooks")]
+    pub(crate) fn verif_set_id(&mut self, id: usize) {
+        self.verif_id = id;
+    }
+
+    #[cfg(feature = "verif-hooks")]
+    pub(crate) fn verif_dump(&self) -> crate::verif::DumpConn {
+        crate::verif::DumpConn {
+            id: self.verif_id,
+            version: self.version,
+            objects: self.objects.iter().copied().collect(),
+            events: self
+                .events
+                .iter()
+                .map(|(&svc, ids)| (svc, ids.iter().copied().collect()))
+                .collect(),
+            all_events: self.all_events.iter().copied().collect(),
+            subscriptions: self.subscriptions.iter().copied().collect(),
+            senders: self.senders.iter().copied().collect(),
+            receivers: self.receivers.iter().copied().collect(),
+            bus_listeners: self.bus_listeners.iter().copied().collect(),
+            calls: self
+                .calls
+                .iter()
+                .map(|(&caller, (callee, id))| (caller, *callee, id.verif_id()))
+                .collect(),
         }
     }
 
@@ -54,6 +87,21 @@ impl ConnectionState {
     }
 
     pub(crate) fn send(&self, msg: VersionedMessage) -> Result<(), ()> {
+        #[cfg(feature = "verif-hooks")]
+        if crate::verif::enabled() {
+            let (copy, from) = (msg.msg.clone(), msg.version);
+            let res = self.send.unbounded_send(msg).map_err(|_| ());
+
+            crate::verif::emit(crate::verif::Record::Send {
+                conn: self.verif_id,
+                ok: res.is_ok(),
+                msg: copy,
+                from,
+            });
+
+            return res;
+        }
+
         self.send.unbounded_send(msg).map_err(|_| ())
     }
 
